@@ -39,7 +39,11 @@
 (* (D) the declarative view (NoteView) and the invariants that tie (C) to   *)
 (*     (A): EveryNoteOnce, ExtentConsumed, SectionViewEqualsSegmentView,    *)
 (*     NotesTile, DescRoundTrip, StabsExact, ImageCarriesExtent, the action *)
-(*     property WalkerProgress and the liveness property Termination.       *)
+(*     properties WalkerProgress (off' >= off + 12 per yielded note) and    *)
+(*     WalkerVariant + the invariant NoStall (termination, safety form),    *)
+(*     and Termination (liveness form under WF on the walker steps; cfg     *)
+(*     Notes_live).  NoteWalkInd.tla restates the progress measure over     *)
+(*     unbounded offsets and sizes as three obligations for Apalache.       *)
 (*                                                                         *)
 (* Not asserted (the standard does not fix it): the symbolic name of a type *)
 (* code whose owner is not the one that defines the code (`fixed` = FALSE:  *)
@@ -72,7 +76,6 @@ ClsLe == {<<32, TRUE>>, <<32, FALSE>>, <<64, TRUE>>, <<64, FALSE>>}
 Cf(cls, le, core, machine, pad) == [cls |-> cls, le |-> le, core |-> core, machine |-> machine, pad |-> pad]
 \* EM_386 3, EM_MIPS 8, EM_PPC 20, EM_PPC64 21, EM_S390 22, EM_ARM 40, EM_X86_64 62, EM_AARCH64 183 (gABI e_machine)
 DefMachine(cls, le) == IF cls = 64 THEN (IF le THEN 62 ELSE 21) ELSE IF le THEN 3 ELSE 8
-WalkCfAll == {Cf(c[1], c[2], core, DefMachine(c[1], c[2]), pad) : c \in ClsLe, core \in BOOLEAN, pad \in {0, 165}}
 WalkCfEight == {Cf(c[1], c[2], core, DefMachine(c[1], c[2]), IF core = c[2] THEN 0 ELSE 165) : c \in ClsLe, core \in BOOLEAN}
 WalkCfQuick == {Cf(32, TRUE, FALSE, 3, 0), Cf(32, FALSE, TRUE, 8, 165), Cf(64, TRUE, TRUE, 62, 0), Cf(64, FALSE, FALSE, 21, 165)}
 TypesCf == {Cf(c[1], c[2], core, DefMachine(c[1], c[2]), 0) : c \in ClsLe, core \in BOOLEAN}
@@ -82,7 +85,10 @@ StabCf == {Cf(c[1], c[2], FALSE, DefMachine(c[1], c[2]), 0) : c \in ClsLe}
 AllModes == {"walk", "types", "desc", "stabs"}
 Sizes8 == {0, 1, 2, 3, 4, 5, 8, 17}
 Sizes4 == {0, 1, 4, 17}
-Sizes3 == {0, 3, 8}
+Sizes4n == {0, 3, 5, 8}
+Sizes3 == {0, 3, 5}
+DescOnly == {"desc"}
+WalkOnly == {"walk"}
 AllProps == {"stack", "nocopy", "x86f1", "x86isan", "x86f2u", "x86isau", "a64f1", "unk0", "unk1", "unk5", "unk8", "unk12", "user"}
 QuickProps == {"stack", "nocopy", "x86f1", "x86isan", "x86f2u", "x86isau", "a64f1", "unk0", "unk1", "unk5", "unk8", "user"}
 NoPairs == {}
@@ -91,6 +97,7 @@ Follow00 == {<<0, 0>>, <<8, 5>>}
 Lead31 == {<<3, 1>>}
 Tails0 == {0}
 Tails048 == {0, 4, 8}
+Tails04 == {0, 4}
 Pads0 == {0}
 Pads165 == {165}
 PadsBoth == {0, 165}
@@ -260,7 +267,8 @@ NoteIm(c, data) ==
   LET n == N(Len(data))
       im0 == [Im0 EXCEPT !.cls = c.cls, !.le = c.le, !.machine = c.machine, !.etype = N(IF c.core THEN 4 ELSE 3),
                          !.secs = <<Sec(DotNoteX, N(7), N(2), N(4096), data, n, Z, Z, N(4), Z)>>,
-                         !.segs = <<Seg(N(4), N(4), Z, N(4096), N(4096), n, n, N(4))>>]
+                         \* (Linux core dumps carry p_memsz = 0 in PT_NOTE: the file size alone delimits the notes)
+                         !.segs = <<Seg(N(4), N(4), Z, N(4096), N(4096), n, IF c.core THEN Z ELSE n, N(4))>>]
   IN [im0 EXCEPT !.segs[1].offset = N(SecOff(im0, 1))]
 StabIm(c, data) ==
   [Im0 EXCEPT !.cls = c.cls, !.le = c.le, !.machine = c.machine, !.etype = N(1),
@@ -521,5 +529,13 @@ WalkerProgress ==
   [][(Walking /\ phase' = phase) => /\ w'.off >= w.off
                                     /\ (w.pc = "yield" => w'.off >= w.cur.off + NhdrSize)
                                     /\ (w.pc = "hdr" => w'.off = w.off + NhdrSize)]_vars
+\* termination, safety form: a walker that is not done can take a step (NoStall), and every walker step
+\* strictly decreases a natural-valued variant (WalkerVariant)
+NoStall == phase \in {"sec", "seg", "stab"} => ENABLED WalkStep
+PcRank(pc) == CASE pc = "hdr" -> 0 [] pc = "yield" -> 1 [] pc = "desc" -> 2 [] pc = "name" -> 3 [] OTHER -> 0
+Rank == (CASE phase = "sec" -> 2 [] phase \in {"seg", "stab"} -> 1 [] OTHER -> 0) * 1048576
+        + (IF phase \in {"sec", "seg", "stab"} THEN (w.end - w.off) + PcRank(w.pc) ELSE 0)
+WalkerVariant == [][WalkStep => Rank' < Rank /\ Rank' >= 0]_vars
+\* termination, liveness form (checked in the small configuration Notes_live)
 Termination == (phase # "write") ~> Done
 =============================================================================
